@@ -52,6 +52,7 @@ def run(tier):
             kn["trash"] = min(kn["trash"], 1)
         kn["ops"] = 6
         kn["inst_copy"] = (i % 3 == 1)
+        kn["tbl_nozero"] = (i % 2 == 1)
         scen.append({"shape": kn, "nproofs": 1, "hash": "blake2b", "seed": rng.randrange(1 << 30),
                      "max_faults": maxf})
     chunks = [scen[i::vlib.NCPU] for i in range(vlib.NCPU)]
